@@ -1,0 +1,23 @@
+//go:build verif
+
+package apk
+
+import (
+	"sync"
+	"time"
+)
+
+// VerifResetGlobalCaches replaces every process-wide cache with an empty one, so that the
+// verification harness can compare a resolution/build with the same call in a fresh state.
+// Must not be called while other goroutines use the package.
+func VerifResetGlobalCaches() {
+	globalResolverCache = &resolverCache{}
+	globalDisqualifyCache = &disqualifyCache{}
+	parsedVersions = sync.Map{}
+	parsedConstraints = sync.Map{}
+	globalIndexCache = &indexCache{
+		modtimes:  map[string]time.Time{},
+		urlToEtag: map[string]string{},
+	}
+	globalApkCache = &apkCache{}
+}
